@@ -178,7 +178,53 @@ def dsis_shard(spec, res, rng):
 
         desc = [[list(t) for t in ts], [list(t) for t in tb]]
         res.case(["dsis", desc], len(ts) >= 2, sample={"dsis": desc[0], "other": desc[1]})
-        op = rng.choice(list(BIN_D) + list(CMP_D) + ["neg", "not", "extract", "zext", "sext", "concat", "union", "intersection", "widen", "query"])
+        op = rng.choice(list(BIN_D) + list(CMP_D) + ["neg", "not", "extract", "zext", "sext", "concat", "union", "intersection", "widen", "query", "seq", "seq"])
+        if op == "seq":
+            # a set that has been asked something (comparisons collapse it) is enlarged and asked again: nothing
+            # remembered from before the union may answer for the larger set
+            tc = [pick() for _ in range(rng.choice([1, 2]))]
+            if wide:
+                tc = [t for t in tc if G.count(t) <= 64] or [(w, 0, 77 % (1 << w), 77 % (1 << w), False, False)]
+            gc_ = pick_members(tc, rng, wide)
+            for first in rng.sample(["ult", "eq", "uge", "slt", "stride", "widen", "collapse", "card"], 2):
+                if first in CMP_D:
+                    apply(res, "seq-" + first, CMP_D[first][0], A, B())
+                elif first == "stride":
+                    apply(res, "seq-stride", lambda X: X.stride, A)
+                elif first == "widen":
+                    apply(res, "seq-widen", lambda X, Y: X.widen(Y), A, B())
+                elif first == "collapse":
+                    apply(res, "seq-collapse", lambda X: X.collapse(), A)
+                else:
+                    apply(res, "seq-card", lambda X: X.cardinality, A)
+            ok, A2 = apply(res, "seq-union", lambda X, Y: X.union(Y), A, mk_dsis(tc, w) if len(tc) > 1 else V.mk(tc[0]))
+            if not ok or not hasattr(A2, "lower_bound"):
+                continue
+            g2 = sorted(set(ga + gc_))
+            desc2 = [desc[0] + [list(t) for t in tc], desc[1], "after-earlier-queries"]
+            judge_members(res, "seq-union", desc2, A2, ((v,) for v in g2), lambda v: v, "dsis")
+            nm = rng.choice(["ult", "ule", "ugt", "eq", "slt", "sge"])
+            fn, sem = CMP_D[nm]
+            ok, r = apply(res, "seq-" + nm, fn, A2, B())
+            if ok:
+                try:
+                    admits = V.bool_values(r)
+                    seen = {bvsem.cmpop(sem, a, b, w) for a in g2 for b in gb}
+                    res.count("judged:dsis")
+                    res.count("judged:dsis:seq-cmp")
+                    if seen - admits:
+                        _viol(res, "seq-" + nm, desc2, sorted(admits), missing=sorted(seen - admits))
+                except Exception:  # noqa: BLE001
+                    res.count("not_a_boolresult:seq-" + nm)
+            ok, r = apply(res, "seq-widen2", lambda X, Y: X.widen(Y), A2, B())
+            if ok:
+                judge_members(res, "seq-widen", desc2, r, ((v,) for v in g2 + gb), lambda v: v, "dsis")
+            ok, r = apply(res, "seq-add", lambda X, Y: X + Y, A2, B())
+            if ok:
+                judge_members(res, "seq-add", desc2, r, itertools.product(g2, gb), lambda a, b: (a + b) & m, "dsis")
+            if is_dsis(A2) and not wide:
+                dsis_queries(res, A2, ts + tc, desc2, rng, wide, w)
+            continue
         if op in BIN_D:
             fn, sem = BIN_D[op]
             if sem in ("shl", "ashr") and any(G.count(t) > 40 for t in tb):
